@@ -34,3 +34,37 @@ Proof.
        rewrite andb_true_iff, beq_eq, IH; split;
        [intros [H1 H2]; constructor; assumption | intros H; inversion H; subst; split; assumption]).
 Qed.
+
+(* ---- constructor / function names against Go identifiers ----
+   The generator derives the Go identifier from the schema name: dots and underscores dropped,
+   CamelCase (`messages.getDialogs` -> `MessagesGetDialogs`); a constructor whose name collides with
+   its boxed type gets the suffix `Obj`, a function's parameter struct the suffix `Params`.
+   Two constructors of one type with the same layout (messageEntityBold / messageEntityItalic,
+   the values of an enum) are indistinguishable to the layout matcher: if their ids were swapped,
+   only the identifier under which the programmer finds them tells. *)
+Definition norm_ident (s : bytes) : bytes :=
+  map lower_ascii (filter (fun c => negb (c =? 95) && negb (c =? 46)) s).
+
+Definition suffix_obj : bytes := [111; 98; 106].                     (* "obj" *)
+Definition suffix_params : bytes := [112; 97; 114; 97; 109; 115].    (* "params" *)
+
+(* does the Go identifier [g] name the schema combinator [c]? *)
+Definition ident_names (c : comb) (g : bytes) : bool :=
+  let n := norm_ident (c_name c) in
+  let g' := norm_ident g in
+  if c_isfun c then beq g' (n ++ suffix_params)
+  else beq g' n || beq g' (n ++ suffix_obj).
+
+Lemma ident_names_spec c g : ident_names c g = true <->
+  (c_isfun c = true /\ norm_ident g = norm_ident (c_name c) ++ suffix_params) \/
+  (c_isfun c = false /\ (norm_ident g = norm_ident (c_name c) \/ norm_ident g = norm_ident (c_name c) ++ suffix_obj)).
+Proof.
+  unfold ident_names. destruct (c_isfun c).
+  - rewrite beq_eq. split; [intros H; left; split; [reflexivity|exact H]|intros [[_ H]|[H _]]; [exact H|discriminate]].
+  - rewrite orb_true_iff, !beq_eq. split; [intros H; right; split; [reflexivity|exact H]|intros [[H _]|[_ H]]; [discriminate|exact H]].
+Qed.
+
+(* an enum constant: Go identifier and value, read from the Go source of the package *)
+Definition const_names (c : comb) (consts : list (bytes * N)) : bool :=
+  existsb (fun kv => (snd kv =? c_id c) && beq (norm_ident (fst kv)) (norm_ident (c_name c))) consts
+  && forallb (fun kv => negb (snd kv =? c_id c) || beq (norm_ident (fst kv)) (norm_ident (c_name c))) consts.
